@@ -37,29 +37,29 @@ Section Simpl.
     apply unit_int_app in H. destruct H as [Ha Hr]. destruct Hg as [<-|Hg]; auto.
   Qed.
 
-  (* the group conversion of heuristic 3 *)
+  (* the group conversion of heuristic 3: same size, same dimension vector *)
   Lemma h3_group_sound g target cv :
     unit_int g = true -> unit_int target = true ->
-    h3_group QcN tbl res keys g = Ok (target, cv) -> cv * Den res target = Den res g.
+    h3_group QcN tbl res keys g = Ok (Some (target, cv)) ->
+    cv * Den res target = Den res g /\ forall x, dimv res target x = dimv res g x.
   Proof.
     intros Hg Ht. unfold h3_group. destruct (h3_target QcN tbl res keys g) as [tg|]; [|discriminate].
     destruct (conv (from_unit QcN g) tg) as [c|] eqn:C; [|discriminate].
     intros H. injection H as <- <-.
-    destruct (convert_to_sound tbl res keys scale_pos (from_unit QcN g) tg c Hg Ht C) as (_ & _ & _ & V & _).
-    simpl in V. rewrite V. ring.
+    destruct (convert_to_sound tbl res keys scale_pos (from_unit QcN g) tg c Hg Ht C) as (_ & _ & _ & V & D).
+    simpl in V, D. split; [rewrite V; ring|]. intros x. symmetry. apply D. discriminate.
   Qed.
 
-  Definition h3_step (acc : res_t (unit * Qc)) (g : list ufactor) : res_t (unit * Qc) :=
-    bind acc (fun '(su, fac) =>
-    bind (h3_group QcN tbl res keys g) (fun '(target, cv) =>
-    Ok (umul su target, n_mul QcN fac cv))).
+  Notation step := (h3_step QcN tbl res keys).
 
-  Lemma h3_fold_err gs e : fold_left h3_step gs (Err e) = Err e.
+  Lemma h3_fold_err gs e : fold_left step gs (Err e) = Err e.
+  Proof. induction gs; simpl; auto. Qed.
+  Lemma h3_fold_none gs : fold_left step gs (Ok None) = Ok None.
   Proof. induction gs; simpl; auto. Qed.
 
   (* all targets chosen by heuristic 3 have integer exponents *)
   Definition h3_ints (gs : list (list ufactor)) : Prop :=
-    forall g target cv, In g gs -> h3_group QcN tbl res keys g = Ok (target, cv) -> unit_int target = true.
+    forall g target cv, In g gs -> h3_group QcN tbl res keys g = Ok (Some (target, cv)) -> unit_int target = true.
 
   Lemma h3_ints_of_b gs : h3_ints_b tbl res keys gs = true -> h3_ints gs.
   Proof.
@@ -69,30 +69,29 @@ Section Simpl.
 
   Lemma h3_fold gs : forall su fac su' fac',
     (forall g, In g gs -> unit_int g = true) -> h3_ints gs -> unit_int su = true ->
-    fold_left h3_step gs (Ok (su, fac)) = Ok (su', fac') ->
-    unit_int su' = true /\ fac' * Den res su' = fac * Den res su * Den res (concat gs).
+    fold_left step gs (Ok (Some (su, fac))) = Ok (Some (su', fac')) ->
+    unit_int su' = true
+    /\ fac' * Den res su' = fac * Den res su * Den res (concat gs)
+    /\ forall x, dimv res su' x = dimv res su x + dimv res (concat gs) x.
   Proof.
     induction gs as [|g r IH]; intros su fac su' fac' Hg Hi Hs H.
-    - simpl in H. injection H as <- <-. split; [exact Hs | simpl; ring].
-    - change (fold_left h3_step (g :: r) (Ok (su, fac)))
-        with (fold_left h3_step r (h3_step (Ok (su, fac)) g)) in H.
-      assert (S : h3_step (Ok (su, fac)) g
-                  = match h3_group QcN tbl res keys g with
-                    | Ok (t, c) => Ok (umul su t, n_mul QcN fac c)
-                    | Err e => Err e
-                    end)
-        by (unfold h3_step; cbn [bind]; destruct (h3_group QcN tbl res keys g) as [[? ?]|]; reflexivity).
-      rewrite S in H. clear S.
-      destruct (h3_group QcN tbl res keys g) as [[target cv]|e] eqn:G.
+    - simpl in H. injection H as <- <-. repeat split; [exact Hs | simpl; ring | intros; simpl; ring].
+    - change (fold_left step (g :: r) (Ok (Some (su, fac))))
+        with (fold_left step r (step (Ok (Some (su, fac))) g)) in H.
+      unfold h3_step at 2 in H. cbn [bind] in H.
+      destruct (h3_group QcN tbl res keys g) as [[[target cv]|]|e] eqn:G; cbn [bind] in H.
       + assert (Hin : In g (g :: r)) by (left; reflexivity).
         assert (Ht : unit_int target = true) by (apply (Hi g target cv Hin G)).
         assert (Hgi : unit_int g = true) by (apply Hg; exact Hin).
         assert (A1 : forall g', In g' r -> unit_int g' = true) by (intros; apply Hg; right; assumption).
         assert (A2 : h3_ints r) by (intros g' target' cv' Hin'; apply Hi; right; assumption).
         assert (A3 : unit_int (umul su target) = true) by (unfold umul; apply unit_int_app; auto).
-        destruct (IH (umul su target) (n_mul QcN fac cv) su' fac' A1 A2 A3 H) as (I & E).
-        split; [exact I|]. rewrite E. unfold umul. change (concat (g :: r)) with (g ++ concat r)%list.
-        rewrite !Den_app. rewrite <- (h3_group_sound g target cv Hgi Ht G). simpl. ring.
+        destruct (IH (umul su target) (n_mul QcN fac cv) su' fac' A1 A2 A3 H) as (I & E & D).
+        destruct (h3_group_sound g target cv Hgi Ht G) as (Ev & Dv).
+        split; [exact I|]. change (concat (g :: r)) with (g ++ concat r)%list. split.
+        * rewrite E. unfold umul. rewrite !Den_app. rewrite <- Ev. simpl. ring.
+        * intros x. rewrite D. unfold umul. rewrite !dimv_app, Dv. ring.
+      + rewrite h3_fold_none in H. discriminate.
       + rewrite h3_fold_err in H. discriminate.
   Qed.
 
@@ -105,18 +104,27 @@ Section Simpl.
     destruct (f x) eqn:E; [injection H as <-; eauto | auto].
   Qed.
 
-  (* full_simplify (heuristics 1-3) preserves the quantity *)
+  Lemma conv_dims q t q' : unit_int (q_unit q) = true -> unit_int t = true ->
+    conv q t = Ok q' -> q_val q <> 0 -> forall x, dimv res (q_unit q') x = dimv res (q_unit q) x.
+  Proof.
+    intros Hq Ht C Hz x. destruct (convert_to_sound tbl res keys scale_pos _ _ _ Hq Ht C) as (U & _ & _ & _ & D).
+    rewrite U. symmetry. apply D. exact Hz.
+  Qed.
+
+  (* full_simplify (heuristics 1-3) preserves the quantity: magnitude, and (for a
+     non-zero value) the dimension vector *)
   Theorem full_simplify_sound q q' :
     unit_int (q_unit q) = true ->
     h3_ints (chunk_by_key keys (canon keys (q_unit q))) ->
     full_simplify QcN tbl res keys q = Ok q' ->
-    DenQ res q' = DenQ res q /\ unit_int (q_unit q') = true.
+    DenQ res q' = DenQ res q /\ unit_int (q_unit q') = true
+    /\ (q_val q <> 0 -> forall x, dimv res (q_unit q') x = dimv res (q_unit q) x).
   Proof.
     intros Hq Hi. unfold full_simplify.
     destruct (negb (q_simp q)); [intros H; injection H as <-; auto|].
     destruct (conv q []) as [s|] eqn:C1.
     { intros H. injection H as <-. destruct (conv_DenQ q [] s Hq eq_refl C1) as (E & U).
-      split; [exact E | rewrite U; reflexivity]. }
+      split; [exact E | split; [rewrite U; reflexivity | apply (conv_dims q [] s Hq eq_refl C1)]]. }
     match goal with |- context [match ?h2 with Some r => Ok r | None => _ end] => destruct h2 as [r2|] eqn:H2 end.
     { intros H. injection H as <-.
       destruct (Nat.ltb 1 (List.length (canon keys (q_unit q)))); [|discriminate].
@@ -128,20 +136,23 @@ Section Simpl.
           exists t end.
         injection Hx as <-. split; [|exact Cr].
         apply unit_int_upower; [exact Ia | reflexivity].
-      - destruct (conv_DenQ q t r2 Hq Ht Ct) as (E & U). split; [exact E | rewrite U; exact Ht]. }
-    fold h3_step.
-    destruct (fold_left h3_step (chunk_by_key keys (canon keys (q_unit q))) (Ok ([], n_one QcN)))
-      as [[su fac]|] eqn:F; [|discriminate].
-    cbn [bind]. intros H. injection H as <-.
+      - destruct (conv_DenQ q t r2 Hq Ht Ct) as (E & U).
+        split; [exact E | split; [rewrite U; exact Ht | apply (conv_dims q t r2 Hq Ht Ct)]]. }
+    destruct (fold_left step (chunk_by_key keys (canon keys (q_unit q))) (Ok (Some ([], n_one QcN))))
+      as [[[su fac]|]|] eqn:F; [| intros H; injection H as <-; auto | discriminate].
+    intros H. injection H as <-.
     destruct (Den_canon_with res scale_pos (key_of keys) (q_unit q) Hq) as (Ic & Dc).
     assert (B1 : forall g, In g (chunk_by_key keys (canon keys (q_unit q))) -> unit_int g = true).
     { intros g Hg. apply (unit_int_concat (chunk_by_key keys (canon keys (q_unit q)))); [|exact Hg].
       rewrite chunk_concat. exact Ic. }
-    destruct (h3_fold _ [] 1 su fac B1 Hi eq_refl F) as (Is & Es).
+    destruct (h3_fold _ [] 1 su fac B1 Hi eq_refl F) as (Is & Es & Ds).
     destruct (Den_canon_with res scale_pos (key_of keys) su Is) as (Ics & Dcs).
-    split; [|exact Ics]. unfold DenQ. simpl. unfold canon at 1. rewrite Dcs.
-    rewrite chunk_concat in Es. unfold canon in Es. rewrite Dc in Es. simpl in Es.
-    transitivity (q_val q * (fac * Den res su)); [ring|]. rewrite Es. ring.
+    split; [|split; [exact Ics|]].
+    - unfold DenQ. simpl. unfold canon at 1. rewrite Dcs.
+      rewrite chunk_concat in Es. unfold canon in Es. rewrite Dc in Es. simpl in Es.
+      transitivity (q_val q * (fac * Den res su)); [ring|]. rewrite Es. ring.
+    - intros _ x. simpl. unfold canon at 1. rewrite dimv_canon_with, Ds, chunk_concat.
+      unfold canon. rewrite dimv_canon_with. simpl. ring.
   Qed.
 
   (* the registry step: whichever candidate unit is picked, the exit is a convert_to *)
@@ -180,7 +191,7 @@ Section Simpl.
   Proof.
     intros Hq Hi Hc. unfold full_simplify_with_registry.
     destruct (full_simplify QcN tbl res keys q) as [s|] eqn:F; [|discriminate]. cbn [bind].
-    destruct (full_simplify_sound q s Hq Hi F) as (Es & Is).
+    destruct (full_simplify_sound q s Hq Hi F) as (Es & Is & _).
     destruct (Hc s eq_refl) as (Hcs & Hbase).
     destruct (negb (q_simp s)); [intros H; injection H as <-; auto|].
     destruct (Nat.leb (List.length (q_unit s)) 1); [intros H; injection H as <-; auto|].
@@ -226,3 +237,57 @@ Proof.
   unfold vm_convert. destruct (convert_to N tbl res keys a (q_unit b)); [|discriminate].
   cbn [bind]. intros H. injection H as <-. reflexivity.
 Qed.
+
+(* ---------------- no panic: full_simplify is total (any number type) *)
+Section Total.
+  Context {T : Type}.
+  Variable N : numops T.
+  Variable tbl : table T.
+  Variable res : resolved (T := T).
+  Variable keys : list skey.
+
+  Lemma chunk_nonempty l : forall g, In g (chunk_by_key keys l) -> g <> [].
+  Proof.
+    induction l as [|x r IH]; intros g Hg; [contradiction|]. simpl in Hg.
+    destruct (chunk_by_key keys r) as [|[|y g0] gs] eqn:E.
+    - destruct Hg as [<-|[]]. discriminate.
+    - destruct Hg as [<-|Hg]; [discriminate | apply IH; exact Hg].
+    - destruct (skey_cmp _ _).
+      + destruct Hg as [<-|Hg]; [discriminate | apply IH; right; exact Hg].
+      + destruct Hg as [<-|Hg]; [discriminate | apply IH; exact Hg].
+      + destruct Hg as [<-|Hg]; [discriminate | apply IH; exact Hg].
+  Qed.
+
+  Lemma h3_group_ok g : g <> [] -> exists o, h3_group N tbl res keys g = Ok o.
+  Proof.
+    intros Hg. unfold h3_group, h3_target. destruct g as [|g0 gr]; [contradiction|].
+    destruct (convert_to N tbl res keys _ _); eexists; reflexivity.
+  Qed.
+
+  Lemma h3_fold_ok gs : (forall g, In g gs -> g <> []) ->
+    forall o, exists o', fold_left (h3_step N tbl res keys) gs (Ok o) = Ok o'.
+  Proof.
+    induction gs as [|g r IH]; intros Hg o; [eexists; reflexivity|].
+    assert (Hr : forall g', In g' r -> g' <> []) by (intros; apply Hg; right; assumption).
+    change (fold_left (h3_step N tbl res keys) (g :: r) (Ok o))
+      with (fold_left (h3_step N tbl res keys) r (h3_step N tbl res keys (Ok o) g)).
+    unfold h3_step at 2. cbn [bind]. destruct o as [[su fac]|]; [|apply IH; exact Hr].
+    destruct (h3_group_ok g) as (og & Eg); [apply Hg; left; reflexivity|]. rewrite Eg. cbn [bind].
+    destruct og as [[t cv]|]; apply IH; exact Hr.
+  Qed.
+
+  (* full_simplify never reaches a panic *)
+  Theorem full_simplify_total q : exists q', full_simplify N tbl res keys q = Ok q'.
+  Proof.
+    unfold full_simplify. destruct (negb (q_simp q)); [eexists; reflexivity|].
+    destruct (convert_to N tbl res keys q []); [eexists; reflexivity|].
+    match goal with |- context [match ?h2 with Some r => Ok r | None => _ end] => destruct h2 end;
+      [eexists; reflexivity|].
+    destruct (h3_fold_ok (chunk_by_key keys (canon keys (q_unit q))) (chunk_nonempty _) (Some ([], n_one N)))
+      as (o' & E).
+    cbv zeta.
+    match goal with |- context [match ?X with Ok _ => _ | Err _ => _ end] =>
+      replace X with (@Ok (option (unit * T)) o') by (symmetry; exact E) end.
+    destruct o' as [[su fac]|]; eexists; reflexivity.
+  Qed.
+End Total.
